@@ -4,6 +4,7 @@ import (
 	"context"
 	"encoding/json"
 	"fmt"
+	cid "github.com/ipfs/go-cid"
 	"strings"
 	"sync"
 	"time"
@@ -519,10 +520,24 @@ func init() {
 
 func scenC16Concurrent(k *K) {
 	typ := []string{"keyvalue", "eventlog"}[k.C.Intn(2)]
-	c := k.NewCluster(ClusterCfg{N: 2, Type: typ})
+	// in half of the runs a third, misbehaving writer is on the write list
+	var adv *Adversary
+	var extra []string
+	if k.C.Chance(1, 2) {
+		adv = k.NewAdversary()
+		extra = []string{adv.Own.ID}
+	}
+	c := k.NewCluster(ClusterCfg{N: 2, Type: typ, ExtraIDs: extra})
+	// in half of the runs the first fetches of about half of Q's entries fail: they are
+	// fetched by a later request and merged below the heads the log already has
+	if k.C.Chance(1, 2) {
+		c.GapFill = true
+		k.W.Stat("mode:gap-fill")
+	}
 	P := c.Stores[0]
 	addr := P.Address().String()
 	check := c16StateCheck(P, addr)
+	replicated := map[string]bool{}
 	ctx, cancel := context.WithCancel(context.Background())
 	k.cleanups = append(k.cleanups, cancel)
 	sub, err := c.Peers[0].DB.EventBus().Subscribe([]interface{}{new(stores.EventWrite), new(stores.EventReplicated)}, eventbus.BufSize(8192))
@@ -547,6 +562,11 @@ func scenC16Concurrent(k *K) {
 						wev = append(wev, key)
 					}
 				}
+				if ev, ok := e.(stores.EventReplicated); ok && ev.Address.String() == addr {
+					for _, en := range ev.Entries {
+						replicated[en.GetHash().String()] = true
+					}
+				}
 				mu.Unlock()
 			case <-ctx.Done():
 				return
@@ -556,12 +576,12 @@ func scenC16Concurrent(k *K) {
 	k.F = FaultCfg{Deliver: 5, Serve: 5, Refresh: 3, Tick: 1, Reorder: 1, ServeAny: 1}
 	before := k.W.Stats["burst-writers-parked-together"]
 	var acked []*WriteRec
-	var adv *Adversary
-	if k.C.Chance(1, 2) {
-		// a hostile peer mixes copies of Q's valid heads with tampered twins of them (payload
-		// changed, so the signature no longer verifies): such a log is fetched and then
-		// refused at the merge, and must not be announced as replicated
-		adv = k.NewAdversary()
+	refusedAtMerge := map[string]bool{}
+	if adv != nil {
+		// the misbehaving writer announces valid entries of its own on top of tampered twins
+		// of Q's heads (payload changed, so the signature no longer verifies): the twin is
+		// fetched as a log of its own and refused at the merge, and must not be announced as
+		// replicated
 		adv.Engage(c.Peers[0], P)
 	}
 	for r, m := 0, k.C.Range(2, 5); r < m; r++ {
@@ -577,12 +597,16 @@ func scenC16Concurrent(k *K) {
 				twin.Payload = append(append([]byte(nil), twin.Payload...), ' ')
 				if h, err := adv.StoreEntry(twin); err == nil {
 					twin.Hash = h
-					heads := []*entry.Entry{valid, twin}
-					if k.C.Chance(1, 2) {
-						heads = []*entry.Entry{twin, valid}
+					refusedAtMerge[h.String()] = true
+					child, err := adv.Craft("own", adv.Own, nil, addr, valid.Payload, []cid.Cid{h, valid.Hash}, valid.Clock.GetTime()+1)
+					if err == nil {
+						heads := []*entry.Entry{valid, child}
+						if k.C.Chance(1, 2) {
+							heads = []*entry.Entry{child, valid}
+						}
+						adv.Deliver([]string{"topic", "direct"}[k.C.Intn(2)], c.Peers[0], P, heads...)
+						k.W.Stat("batch-with-a-log-refused-at-merge")
 					}
-					adv.Deliver([]string{"topic", "direct"}[k.C.Intn(2)], c.Peers[0], P, heads...)
-					k.W.Stat("batch-with-a-log-refused-at-merge")
 				}
 			}
 		}
@@ -608,6 +632,23 @@ func scenC16Concurrent(k *K) {
 	if len(ws) != len(acked) {
 		k.Failf("C16/write-event-count", "%d successful local writes but %d EventWrite events were emitted", len(acked), len(ws))
 	}
+	// every merged remote batch produces a replicated event: what P's log holds of other
+	// writers' entries was announced by one, and nothing refused at the merge was
+	mu.Lock()
+	own := c.Peers[0].DB.Identity().ID
+	for _, e := range LogValues(P) {
+		if e.GetIdentity().ID != own && !replicated[e.GetHash().String()] {
+			mu.Unlock()
+			k.Failf("C16/replicated-event-missing", "P's log holds %s, written by another peer, but no EventReplicated carried it (log %v)", EntryName(e), LogNames(P))
+		}
+	}
+	for h := range refusedAtMerge {
+		if replicated[h] {
+			mu.Unlock()
+			k.Failf("C16/replicated-event-lists-refused", "an EventReplicated carried an entry that was refused at the merge (a tampered twin of a valid head)")
+		}
+	}
+	mu.Unlock()
 	k.Notes["events"] = len(ws)
 	k.Notes["local_writes"] = len(acked)
 	k.Notes["nontrivial"] = k.W.Stats["burst-writers-parked-together"] > before
